@@ -1162,7 +1162,9 @@ class UserActions(object):
     [length] = unique_lengths
 
     decoded_require = actions.decode_bulk_values(require)
-    num_unique_keys = len(set(zip(*decoded_require.values())))
+    # (List values, as for ChoiceList columns, are not hashable; compare them as tuples.)
+    num_unique_keys = len(set(zip(*[[tuple(v) if isinstance(v, list) else v for v in values]
+                                    for values in decoded_require.values()])))
     if require and num_unique_keys < length:
       raise ValueError("require values must be unique")
 
